@@ -46,4 +46,16 @@ DRIVERS = {
         "level_text": "Every attribute assignment within the stated bound is executed wet on the real plugins; the sequence of attacked cgroups (kill-uuid xattr writes) of each invocation must be one the reference DFS can produce, which decides preference-over-metric, prefer-wins, oom.group, no-descent-without-recursive, unpopulated-skip, fallback/backtracking and stop-at-first-success together.",
         "level_note": "Trusted: effect log at the libc boundary, world model, reference search written from docs/core_plugins.md. Ties (equal preference and metric) are left open.",
     },
+    "C17": {
+        "sources": COMMON + ["props/c17.cpp"], "level": "exploration", "engine": "E1",
+        "technique": "bounded-exhaustive scenario product executed on the real kill plugins (wet and dry); monitor over xattr writes, kmsg sink writes, the oomd.kills counter and the observed PluginRet",
+        "level_text": "The complete product listed in evidence.rule is executed; for every kill attempt the xattr values written are compared with the values an independent shadow store predicts, the kmsg sink is inspected at the write(2) boundary (so log silencing cannot hide a record), and the plugin's return value is observed through a transparent wrapper together with whether the following action ran.",
+        "level_note": "Trusted: effect log at the libc boundary, shadow xattr arithmetic, verif_wrap observer. kernelkill's oomd_kill amount is left open (no SIGKILL count exists there).",
+    },
+    "C04": {
+        "sources": COMMON + ["common/sdbus_stub.cpp", "props/c04.cpp"], "level": "exploration", "engine": "E1",
+        "technique": "bounded-exhaustive scenario product, each executed twice (wet / dry) on the real plugins from identical simulated worlds; differential monitor over the effect logs at the libc and sd-bus boundary",
+        "level_text": "For every scenario of the product the dry execution's effect log must contain no kill, xattr write, control-file write, pidfd/process_mrelease or sd-bus call and leave oomd.kills / oomd.restarts untouched, while naming (marked '(dry)') the cgroup the wet execution attacks first and showing the same return value and the same ticks of later chain starts as a wet run whose first attempt succeeded.",
+        "level_note": "Trusted: harness is libc/sd-bus for all effect calls; world determinism (both runs start from byte-identical trees at the same virtual time).",
+    },
 }
